@@ -110,7 +110,7 @@ def r9_3(F, R):
                 R.ok("R9.3", inst, None, f.loc(f.blocks[p]["t"]), how="must-pass")
             else:
                 R.violation("R9.3", inst, "%s: execution-stack push without a pop on the path %s: error context (stack traces) is corrupted from then on" % (f.name, fmt_path(f, path)), f.loc(f.blocks[p]["t"]))
-    R.floor("R9.3", "stack_push sites", n, 5)
+    R.floor("R9.3", "stack_push sites", n, 3)
     # and the converse: a pop only ever undoes a push of the same function — every path from the entry to a stack_pop passes a stack_push
     m = 0
     for f in F.fns.values():
@@ -127,7 +127,7 @@ def r9_3(F, R):
             else:
                 R.violation("R9.3", inst, "%s: execution-stack pop reachable without a preceding push (%s): it removes the frame of the enclosing primitive, so a "
                             "later error is reported with an empty stack (and rendering it unwraps `stack.last()`)" % (f.name, fmt_path(f, path)), f.loc(f.blocks[p]["t"]))
-    R.floor("R9.3", "stack_pop sites", m, 5)
+    R.floor("R9.3", "stack_pop sites", m, 3)
 
 
 def r9_5(F, R):
